@@ -32,10 +32,10 @@ EXPLANATION = (
 )
 
 MODEL_UNTYPED = (
-    '((("ObjectStreamInternalMethods" ("StreamItem") (some (stream (tvar "StreamItem"))) '
+    '((("ObjectStreamInternalMethods" ("StreamItem") (some (cls "ObjectStream" ((tvar "StreamItem")))) '
     '(("First" () (some (tvar "StreamItem")) none) ("Count" () (some int) none)) () none true)'
-    ' ("ObjectStream" ("T") none (("Select" (("f" none)) (some (stream (tvar "S"))) none) ("SelectMany" (("func" none)) (some (stream (tvar "S"))) none)'
-    ' ("Where" (("filter" none)) (some (stream (tvar "T"))) none)) () none false))'
+    ' ("ObjectStream" ("T") none (("Select" (("f" none)) (some (cls "ObjectStream" ((tvar "S")))) none) ("SelectMany" (("func" none)) (some (cls "ObjectStream" ((tvar "S")))) none)'
+    ' ("Where" (("filter" none)) (some (cls "ObjectStream" ((tvar "T")))) none)) () none false))'
     ' (("abs" (("x" none)) (some float) none) ("len" (("x" none)) (some int) none)))'
 )
 
